@@ -410,30 +410,35 @@ def member(t, v, mros):
     return True
 
 
-def why_not_member(t, v, mros):
-    """(type constructor, value kind) at the first place where membership fails — names the defect class"""
+def why_not_member(t, v, mros, g=None):
+    """(type constructor, value kind) at the first place where membership fails — names the defect class.
+    `g` is the given value at the same place (when the shapes agree): a stored None where None was given
+    inside a container of configurations is told apart from a stored None where a dict was given."""
     k, vk = t["k"], v["k"]
     if member(t, v, mros):
         return None
     if k == "opt":
-        return why_not_member(t["t"], v, mros)
+        return why_not_member(t["t"], v, mros, g)
+    same = g is not None and g["k"] == vk and vk in ("list", "dict") and len(g["vs"]) == len(v["vs"])
     if k == "list" and vk == "list":
-        for x in v["vs"]:
-            r = why_not_member(t["t"], x, mros)
+        for i, x in enumerate(v["vs"]):
+            r = why_not_member(t["t"], x, mros, g["vs"][i] if same else None)
             if r:
                 return r
     if k == "dict" and vk == "dict":
         if not all(kk["k"] == "str" for kk in v["ks"]):
             return "dict-key<-" + next(kk["k"] for kk in v["ks"] if kk["k"] != "str")
-        for x in v["vs"]:
-            r = why_not_member(t["t"], x, mros)
+        for i, x in enumerate(v["vs"]):
+            r = why_not_member(t["t"], x, mros, g["vs"][i] if same else None)
             if r:
                 return r
     if k == "union":
-        rs = [why_not_member(alt, v, mros) for alt in t["ts"] if alt["k"] == vk and vk in ("list", "dict")]
+        rs = [why_not_member(alt, v, mros, g) for alt in t["ts"] if alt["k"] == vk and vk in ("list", "dict")]
         rs.sort(key=lambda r: (not r.startswith("cfg<-none"), not r.startswith("union<-none")))
         if rs:
             return rs[0]
+        if vk == "none" and g is not None and g["k"] == "none" and any(a["k"] == "cfg" for a in t["ts"]):
+            return "cfg<-none"  # a configuration alternative let the given None through
     return f"{k}<-{vk}"
 
 
@@ -738,12 +743,6 @@ def set_at(v, path, new):
     return out
 
 
-def val_depth(v):
-    if v["k"] in ("list", "tuple", "dict") and v["vs"]:
-        return 1 + max(val_depth(x) for x in v["vs"])
-    return 0
-
-
 # ---------------------------------------------------------------------------
 # generated packages (real source files on sys.path)
 
@@ -949,7 +948,7 @@ def gen_set_cases(ctx, rng, ntypes):
         t = gen_ty(rng, [0, 1, 2, 3])
         arg = {"ty": t, "default": None, "generator": False, "constant": False}
         inner = t["t"] if t["k"] == "opt" else t
-        if t["k"] not in ("opt",) and "cfg" not in ty_kinds(t, []) and rng.random() < 0.15:
+        if t["k"] not in ("opt",) and not ({"cfg", "any"} & set(ty_kinds(t, []))) and rng.random() < 0.15:  # defaults must be clonable
             arg["default"] = vg.conforming(inner)
             if arg["default"]["k"] == "none":  # `= None` declares no default
                 arg["default"] = None
@@ -1027,8 +1026,8 @@ def one_set_case(ctx, cls, arg, kind, vd, depth, W0, impl, lines, impls, metas, 
             o.x = v
         else:
             o = cls(x=v)
-        stored = o.__xpm__.values["x"]
-        readback = o.x
+        readback = o.x  # the public observable; the internal table is a cross-check when it is there
+        stored = getattr(o.__xpm__, "values", {}).get("x", readback)
         stored_d = canon(stored, w)
         out = {"r": "ok", "v": strip_cls(stored_d)}
         if not (readback is stored or readback == stored):
@@ -1043,7 +1042,7 @@ def one_set_case(ctx, cls, arg, kind, vd, depth, W0, impl, lines, impls, metas, 
         sd = strip_cls(stored_d)
         ok_none = sd["k"] == "none" and not required(arg) and vd["k"] == "none"
         if not ok_none and not member(t, sd, S_MROS):
-            why = why_not_member(t["t"] if t["k"] == "opt" else t, sd, S_MROS)
+            why = why_not_member(t["t"] if t["k"] == "opt" else t, sd, S_MROS, vdm)
             ctx.monitor_fail(f"stored-nonmember:{why}",
                              f"Param[{tyname}] given {v!r} stores {stored!r}, which is not a {tyname} ({why}) and no exception is raised", case)
         elif not ok_none and not equalish(t, sd, vdm, S_MROS):
@@ -1054,8 +1053,7 @@ def one_set_case(ctx, cls, arg, kind, vd, depth, W0, impl, lines, impls, metas, 
         if not in_domain:
             ctx.count("conforming_outside_union_domain", out["r"])
         elif out["r"] == "err":
-            what = "conforming-rejected" if is_member else "coercion-rejected"
-            ctx.monitor_fail(f"{what}:{out['e']}:{'union' if has_union(t) else t['k']}",
+            ctx.monitor_fail(f"acceptable-rejected:{out['e']}:{'union' if has_union(t) else t['k']}",
                              f"Param[{tyname}] rejects the {'conforming' if is_member else 'coercible'} value {v!r} with {out['e']}", case)
         elif is_member and not (stored is v or stored == v):
             ctx.monitor_fail(f"conforming-changed:{'union' if has_union(t) else t['k']}",
@@ -1124,10 +1122,6 @@ def compare_set(ctx, line, m, i, meta):
 
 # ---------------------------------------------------------------------------
 # declarability of annotations (`Type.fromType`)
-
-
-def model_declarable_py(t):
-    return None  # the model decides; kept for symmetry
 
 
 def run_decl_cases(ctx, rng, n):
@@ -1255,7 +1249,8 @@ def gen_graph(rng, classes, mros, complete=False):
         if shared and rng.random() < 0.2:
             n = rng.choice(shared)
             return {"k": "config", "cls": nodes[n]["cls"], "id": n}
-        cc = rng.choice([j for j in range(len(classes)) if c in mros[j]])
+        # a subclass may refer back to higher classes: below depth 4 only the class itself (references then go strictly down)
+        cc = rng.choice([j for j in range(len(classes)) if c in mros[j]]) if depth < 4 else c
         nid = len(nodes)
         nd = {"cls": cc, "vals": [None] * len(classes[cc]["args"]), "pre": [], "init": []}
         nodes.append(nd)
@@ -1502,7 +1497,9 @@ def run_graph_case(ctx, classes, defaults, W, mros, g, lines, impls, metas, with
             return "other:" + type(e).__name__
 
     v1 = call_validate()
-    flags = sorted(n for n, o in w.objs.items() if getattr(o.__xpm__, "_validated", None) is True)
+    # the flags are an internal detail: compared when present (diagnostic), skipped after a rename
+    flags = sorted(n for n, o in w.objs.items() if getattr(o.__xpm__, "_validated", None) is True) \
+        if hasattr(root.__xpm__, "_validated") else None
     v2 = call_validate()
     out = {"validate": v1, "again": v2, "flags": flags}
     # (c) submit on fresh objects (a cyclic graph that passes validation only runs into the RecursionError of
@@ -1568,7 +1565,7 @@ def compare_graphs(ctx, lines, impls, metas):
 def compare_graph(ctx, line, m, i, meta):
     if m.get("missing_deep") != meta["miss_deep"]:
         ctx.disagree(meta["case"], m.get("missing_deep"), meta["miss_deep"], "reachable-missing (model, all edges) differs from the python computation")
-    mv = {"validate": m["validate"], "again": m["again"], "flags": m["flags"]}
+    mv = {"validate": m["validate"], "again": m["again"], "flags": m["flags"] if i["flags"] is not None else None}
     iv = {k: i[k] for k in ("validate", "again", "flags")}
     if mv != iv:
         ctx.disagree(meta["case"], mv, iv, "ConfigInformation.validate: model and implementation differ")
@@ -1679,7 +1676,8 @@ def correspond(ctx):
     rng = ctx.rng
     probe_impl(ctx)
     run_case_list(ctx, [json.loads(json.dumps(c)) for c in CORPUS])
-    ntypes = ctx.scale(260, 4000)
+    t0 = time.time()
+    ntypes = ctx.scale(260, 2400)
     batch = 130 if ctx.quick() else 400
     done = 0
     while done < ntypes:
@@ -1687,9 +1685,12 @@ def correspond(ctx):
         run_set_cases(ctx, gen_set_cases(ctx, rng, k))
         done += k
     run_decl_cases(ctx, rng, ctx.scale(40, 400))
-    nlibs, per = ctx.scale((14, 18), (150, 22))
+    t1 = time.time()
+    nlibs, per = ctx.scale((14, 18), (80, 22))
     run_graphs(ctx, rng, nlibs, per)
+    t2 = time.time()
     flush(ctx)
+    ctx.notes.append(f"phases: set+decl {t1 - t0:.0f}s, graphs {t2 - t1:.0f}s, model driver {time.time() - t2:.0f}s")
 
 
 def search(ctx):
